@@ -441,6 +441,13 @@ def a_message_is_delivered_or_the_connection_dropped(ctx):
                     drops = any(isinstance(x, ast.Assign) and isinstance(x.value, ast.Constant) and x.value.value is False and
                                 any(isinstance(tt, ast.Attribute) and tt.attr == 'running' for tt in x.targets)
                                 for st in h.body for x in walk_local(st)) or handler_reraises(h)
+                    if not drops:
+                        # the handler reports the failure through a flag (`ok = False`) and the connection is dropped where the flag is
+                        # tested: every way from the handler to the end of send_reply stores running = False
+                        fcfg = CFG(f.node, m, f.module)
+                        stores = [i for x in body_walk(f.node) if isinstance(x, ast.Assign) and isinstance(x.value, ast.Constant) and x.value.value is False
+                                  and any(isinstance(tt, ast.Attribute) and tt.attr == 'running' for tt in x.targets) for i in fcfg.node_of(x)]
+                        drops = bool(stores) and fcfg.exit not in reach_with_flags(fcfg, fcfg.ids(h), avoid=stores)
                     ctx.check(drops, f'{f.qualname}:handler `{src(h.type) if h.type else "bare"}` ends the connection', h, 'sets running = False (or re-raises)',
                               f'the handler for `{src(h.type) if h.type else "everything"}` around `{src(c)}` leaves the connection running: the message is lost, '
                               'but the connection stays in the activation / subscription sets - its client misses this update and believes a stale value', f)
